@@ -322,7 +322,7 @@ def do_check(prop, meta, tier, seed):
     if harness_fail or evaluations == 0 or first is None:
         for s in harness_fail:
             log("HARNESS-FAILURE property=%s %s" % (prop, s))
-        if evaluations == 0:
+        if evaluations == 0 and rc == 0:
             log("HARNESS-FAILURE property=%s nothing was observed" % prop)
         if rc == 0:
             rc = 2
